@@ -31,7 +31,7 @@ def run(ck):
         ck.anchor_missing("2", "T2-all-exits", "Poll::unregister in Generic::unregister")
     else:
         ok_e, err_e, _ = T.result_split(g, pu[0].bb)
-        okret = [i for i, j, st in g.statements() if st["s"] == "assign" and st["pl"]["l"] == 0 and st["rv"]["r"] == "agg" and st["rv"].get("variant") == "Ok" and not g.is_cleanup(i)]
+        okret = [i for i, j, st in g.statements() if st["s"] == "assign" and st["pl"]["l"] in T.ret_locals(g) and st["rv"]["r"] == "agg" and st["rv"].get("variant") == "Ok" and not g.is_cleanup(i)]
         bad = T.t2_all_exits(g, [x for _, x in ok_e] or [pu[0].to], tok_none, exits=okret or None)
         ck.verdict(bool(tok_none) and bad is None, "2", "T2-all-exits", g, "unregistered=>token-forgotten", "every successful unregister clears the recorded token (events collected before a disable are then ignored)", "Generic::unregister can succeed while keeping its token: an event collected before disable() still reaches the callback", site=g.where(pu[0].bb), path=path_descr(g, bad) if bad else None)
     t = ck.body("2", "<Timer as EventSource>::unregister")
